@@ -3,12 +3,12 @@
 import os, json, glob, re
 HERE = os.path.dirname(os.path.dirname(os.path.abspath(__file__)))
 first = {}
-p1 = os.path.join(HERE, 'seeded', 'detect_pass1.log')
-if os.path.exists(p1):
-    for l in open(p1):
-        m = re.match(r'(C\d\d-\d) (caught|MISSED)', l)
-        if m:
-            first[m.group(1)] = m.group(2)
+for p1 in (os.path.join(HERE, 'seeded', 'detect_pass1.log'), os.path.join(HERE, 'seeded', 'detect_pass1_round2.log')):
+    if os.path.exists(p1):
+        for l in open(p1):
+            m = re.match(r'(C\d\d-\d) (caught|MISSED)', l)
+            if m and m.group(1) not in first:
+                first[m.group(1)] = m.group(2)
 print('| seed | what it changes | needs | first pass | now | first firing monitor |')
 print('|------|-----------------|-------|------------|-----|----------------------|')
 for d in sorted(glob.glob(os.path.join(HERE, 'seeded', 'C*-*'))):
